@@ -32,6 +32,10 @@ theorem SvStep.trans {a b c : N} (h1 : SvStep a b) (h2 : SvStep b c) : SvStep a 
 theorem SvStep.same {n m k : N} (h : SvStep n m) (hs : k.sv = m.sv) (hh : k.hist = m.hist) : SvStep n k :=
   ⟨by rw [hs]; exact h.issued, by rw [hs]; exact h.table, fun t => by rw [hh]; exact h.trace t⟩
 
+theorem SvStep.of_eq {n k : N} (hi : k.sv.issued = n.sv.issued) (ht : k.sv.table = n.sv.table)
+    (hh : k.hist = n.hist) : SvStep n k :=
+  ⟨hi, by rw [ht]; exact List.Sublist.refl _, fun t => by rw [hh]⟩
+
 theorem setClient_sv (n : N) (i : Nat) (c : Client) : (n.setClient i c).sv = n.sv := by
   unfold N.setClient; split <;> rfl
 theorem setClient_hist (n : N) (i : Nat) (c : Client) : (n.setClient i c).hist = n.hist := by
@@ -42,6 +46,7 @@ theorem setCn_hist (n : N) (w : Who) (c : Cn) : (n.setCn w c).hist = n.hist := b
   unfold N.setCn; cases w <;> simp [setClient_hist]
 
 theorem SvStep.push {n m : N} (h : SvStep n m) (x : Msg) : SvStep n (m.push x) := h.same rfl rfl
+theorem SvStep.pushLate {n m : N} (h : SvStep n m) (x : Msg) : SvStep n (m.pushLate x) := h.same rfl rfl
 theorem SvStep.setLink {n m : N} (h : SvStep n m) (l : Nat) (k : Link) : SvStep n (m.setLink l k) := h.same rfl rfl
 theorem SvStep.setClient {n m : N} (h : SvStep n m) (i : Nat) (c : Client) : SvStep n (m.setClient i c) :=
   h.same (setClient_sv m i c) (setClient_hist m i c)
@@ -70,12 +75,28 @@ theorem SvStep.closeS {n m : N} (h : SvStep n m) (l : Nat) : SvStep n (m.closeS 
   unfold N.closeS; simp only
   split
   · split
-    · exact (h.setLink _ _).push _
+    · exact (h.setLink _ _).pushLate _
     · exact h.setLink _ _
   · exact h
 
 theorem SvStep.closeC {n m : N} (h : SvStep n m) (l : Nat) : SvStep n (m.closeC l) := by
   unfold N.closeC; simp only
+  split
+  · split
+    · exact (h.setLink _ _).pushLate _
+    · exact h.setLink _ _
+  · exact h
+
+theorem SvStep.closeSNow {n m : N} (h : SvStep n m) (l : Nat) : SvStep n (m.closeSNow l) := by
+  unfold N.closeSNow; simp only
+  split
+  · split
+    · exact (h.setLink _ _).push _
+    · exact h.setLink _ _
+  · exact h
+
+theorem SvStep.closeCNow {n m : N} (h : SvStep n m) (l : Nat) : SvStep n (m.closeCNow l) := by
+  unfold N.closeCNow; simp only
   split
   · split
     · exact (h.setLink _ _).push _
@@ -100,7 +121,7 @@ theorem SvStep.cnStop {n m : N} (h : SvStep n m) (w : Who) : SvStep n (cnStop m 
   unfold Tbox.C06.Net.cnStop; simp only
   split
   · split
-    · exact (h.closeC _).setCn _ _
+    · exact (h.closeCNow _).setCn _ _
     · exact h.setCn _ _
   · split
     · exact SvStep.setCn (m := { m with uaf := true }) (h.same rfl rfl) _ _
@@ -313,8 +334,8 @@ theorem handle_svStep_client (cfg : Cfg) (n : N) (m : Msg)
         · exact SvStep.runScript (SvStep.evCl (SvStep.refl n) _ _ _) cfg _ _
         · exact SvStep.refl n
       · split
-        · exact SvStep.refl n
-        · exact (SvStep.refl n).same rfl rfl
+        · exact SvStep.of_eq rfl rfl rfl
+        · exact SvStep.of_eq rfl rfl rfl
       · exact SvStep.refl n
   | sentC l =>
       simp only [handle]
@@ -337,8 +358,8 @@ theorem handle_svStep_client (cfg : Cfg) (n : N) (m : Msg)
           · exact h1
         · exact SvStep.refl n
       · split
-        · exact SvStep.refl n
-        · exact (SvStep.refl n).same rfl rfl
+        · exact SvStep.of_eq rfl rfl rfl
+        · exact SvStep.of_eq rfl rfl rfl
       · exact SvStep.refl n
   | _ => exact absurd hm (by simp)
 
@@ -505,10 +526,6 @@ theorem SvStep.withSv {n m : N} (h : SvStep n m) (sv' : Server) (hi : sv'.issued
     (ht : sv'.table = m.sv.table) : SvStep n { m with sv := sv' } :=
   ⟨by simp [hi, h.issued], by simp [ht, h.table], h.trace⟩
 
-theorem SvStep.of_eq {n k : N} (hi : k.sv.issued = n.sv.issued) (ht : k.sv.table = n.sv.table)
-    (hh : k.hist = n.hist) : SvStep n k :=
-  ⟨hi, by rw [ht]; exact List.Sublist.refl _, fun t => by rw [hh]⟩
-
 theorem SvStep.knFailCb {n : N} (cfg : Cfg) (r : N × Bool) (h : SvStep n r.1) : SvStep n (knFailCb cfg r) := by
   unfold Tbox.C06.Net.knFailCb
   split
@@ -539,11 +556,11 @@ theorem step_svStep (cfg : Cfg) (n : N) (op : Op) : SvStep n (step cfg n op).1 :
   | svStop => exact (SvStep.refl n).svStop cfg
   | svCleanup =>
       simp only [step]; split; exact SvStep.refl n
-      have key : ∀ (l : List Nat) (k : N), SvStep n k → SvStep n (l.foldl (fun n l => n.closeS l) k) := by
+      have key : ∀ (l : List Nat) (k : N), SvStep n k → SvStep n (l.foldl (fun n l => n.closeSNow l) k) := by
         intro l
         induction l with
         | nil => intro k hk; exact hk
-        | cons e l ih => intro k hk; exact ih _ (hk.closeS _)
+        | cons e l ih => intro k hk; exact ih _ (hk.closeSNow _)
       have h1 := key (svStop cfg n).backlog _ ((SvStep.refl n).svStop cfg)
       exact h1.trans (SvStep.of_eq rfl rfl rfl)
   | svSend t d => exact (SvStep.refl n).svSend t d
@@ -572,8 +589,8 @@ theorem step_svStep (cfg : Cfg) (n : N) (op : Op) : SvStep n (step cfg n op).1 :
       simp only [step]; split
       · split; exact (SvStep.refl n).push _; exact SvStep.refl n
       · exact SvStep.refl n
-  | rawClose => simp only [step]; split; exact ((SvStep.refl n).closeC _).trans (SvStep.of_eq rfl rfl rfl); exact SvStep.refl n
-  | rawHold b => exact SvStep.of_eq rfl rfl rfl
+  | rawClose => simp only [step]; split; exact ((SvStep.refl n).closeCNow _).trans (SvStep.of_eq rfl rfl rfl); exact SvStep.refl n
+  | rawHold b => simp only [step]; split <;> exact SvStep.of_eq rfl rfl rfl
   | adv ms =>
       simp only [step]
       have key : ∀ (l : List (Who × Nat × Nat)) (k : N), SvStep n k →
